@@ -69,14 +69,18 @@ def scan_forbidden():
     return bad
 
 
-def check_proofs(prop):
-    """returns dict(ok, obligations, discharged, theorems, detail)"""
+def check_proofs(prop, files=None):
+    """returns dict(ok, obligations, discharged, theorems, detail). `files`: the statement files of the property
+    (default Props/<prop>.v)"""
     res = dict(ok=False, obligations=0, discharged=0, theorems=[], detail="")
-    props_v = os.path.join(vlib.COQ_WORK, "Props", prop + ".v")
-    if not os.path.exists(props_v):
-        res["detail"] = "no Props/%s.v" % prop
-        return res
-    text = strip_comments(open(props_v).read())
+    files = files or [prop]
+    text = ""
+    for fn in files:
+        props_v = os.path.join(vlib.COQ_WORK, "Props", fn + ".v")
+        if not os.path.exists(props_v):
+            res["detail"] = "no Props/%s.v" % fn
+            return res
+        text += strip_comments(open(props_v).read()) + "\n"
     thms, exs, mods = [], [], []
     for line in text.split("\n"):
         m = re.match(r"\s*Module\s+(\w+)\s*\.", line)
@@ -96,7 +100,7 @@ def check_proofs(prop):
     if bad:
         res["detail"] = "forbidden constructs: " + "; ".join(bad[:10])
         return res
-    ok, out = vlib.coq_make(["Props/%s.vo" % prop])
+    ok, out = vlib.coq_make(["Props/%s.vo" % fn for fn in files])
     if not ok:
         m = re.search(r"File \"([^\"]+)\", line (\d+).*?\n(Error:.*?)(?:\n\n|\Z)", out, re.S)
         res["detail"] = "make Props/%s.vo failed: %s" % (prop, (m.group(0) if m else out[-1500:]))
@@ -107,7 +111,8 @@ def check_proofs(prop):
     os.makedirs(ad, exist_ok=True)
     path = os.path.join(ad, "A_%s.v" % prop)
     with open(path, "w") as f:
-        f.write("Require Import Props.%s.\n" % prop)
+        for fn in files:
+            f.write("Require Import Props.%s.\n" % fn)
         for t in thms + exs:
             f.write("Print Assumptions %s.\n" % t)
     rc, out, err = vlib.coqc_file(path)
@@ -125,9 +130,9 @@ def check_proofs(prop):
     return res
 
 
-def run_coqchk(prop):
+def run_coqchk(prop, files=None):
     """thorough tier: re-check the compiled closure of Props/Cxx.vo with the independent checker and list its axioms"""
-    rc, out, err = vlib.run(["coqchk", "-o", "-silent"] + vlib.qflags() + ["Props." + prop], cwd=vlib.COQ_WORK, timeout=3000)
+    rc, out, err = vlib.run(["coqchk", "-o", "-silent"] + vlib.qflags() + ["Props." + fn for fn in (files or [prop])], cwd=vlib.COQ_WORK, timeout=3000)
     text = out + err
     m = re.search(r"\* Axioms:\s*(.*?)\n\s*\n", text, re.S)
     axioms = (m.group(1).strip() if m else "?")
@@ -211,12 +216,12 @@ def main():
         if bl is not None:
             models, consts = bl
     # ---- 2. proofs
-    proof = check_proofs(prop) if tr_ok else dict(ok=False, obligations=0, discharged=0, theorems=[], detail="Gen/*.v not regenerated")
+    proof = check_proofs(prop, getattr(mod, "PROPS_FILES", None)) if tr_ok else dict(ok=False, obligations=0, discharged=0, theorems=[], detail="Gen/*.v not regenerated")
     if not proof["ok"]:
         problems.append(("proof", proof["detail"]))
     chk_info = None
     if tier == "thorough" and proof["ok"]:
-        ok_chk, axioms, tail = run_coqchk(prop)
+        ok_chk, axioms, tail = run_coqchk(prop, getattr(mod, "PROPS_FILES", None))
         chk_info = dict(coqchk_ok=ok_chk, coqchk_axioms=axioms)
         if not ok_chk:
             problems.append(("coqchk", "coqchk -o on Props.%s: axioms = %s\n%s" % (prop, axioms, tail)))
